@@ -57,7 +57,8 @@ def corpus():
 def generate(rng, tier):
     n = 2000 if tier == 'quick' else 20000
     m = 500 if tier == 'quick' else 5000
-    return [L.gen_history(rng, PROFILE, rng.randint(3, 40)) for _ in range(n)] + [gen_inherit(rng) for _ in range(m)]
+    return ([L.gen_history(rng, PROFILE, rng.randint(3, 40)) for _ in range(n)] + [gen_inherit(rng) for _ in range(m)] +
+            [gen_xid(rng) for _ in range(m // 2)])
 
 
 # ------------------------------------------------------------------ inheritance stream (failed subclass inserts)
@@ -224,10 +225,148 @@ def run_inherit(case):
     return {'isteps': steps}
 
 
+# ------------------------------------------------------------------ explicit-id stream (creates with a caller-chosen id)
+# Judged by the oracle on the implementation only: the ORM model numbers rows itself.
+_xconns = {}
+
+
+def gen_xid(rng):
+    ops, used = [], {0: [], 1: [], 2: []}
+    nu = [0]
+    for _ in range(rng.randint(2, 12)):
+        k = rng.choice([0, 1, 2])
+        r = rng.random()
+        if r < 0.7:
+            nu[0] += 1
+            if rng.random() < 0.25 and used[k]:
+                i = rng.choice(used[k])                     # an id that is taken: the create must fail cleanly
+            else:
+                i = rng.choice([0, 0, -1, -2, 5, 7, 50, None, None, rng.randint(1, 12)])
+            u = rng.randint(1, nu[0]) if rng.random() < 0.15 else 100 + nu[0]
+            ops.append(['xcreate', k, i, u, rng.choice([0, 1, 2]) if rng.random() < 0.15 else None])
+            if i is not None:
+                used[k].append(i)
+        else:
+            ops.append(['xget', k, rng.choice(used[k]) if used[k] and rng.random() < 0.8 else rng.randint(-2, 12)])
+    return {'xid': True, 'cfg': {'cache': rng.random() < 0.7}, 'ops': ops}
+
+
+def run_xid(case):
+    import gc
+    from sqlobject.sqlite.sqliteconnection import SQLiteConnection
+    from sqlobject import dberrors
+    from sqlobject.cache import CacheSet
+    cls = L.classes()
+    key = bool(case['cfg']['cache'])
+    conn = _xconns.get(key)
+    if conn is None:
+        conn = SQLiteConnection(':memory:', cache=key)
+        for c in cls:
+            c._connection = conn
+            c.createTable()
+        _xconns[key] = conn
+    else:
+        raw = conn.getConnection()
+        cur = raw.cursor()
+        for t in L.TABLES:
+            cur.execute('DELETE FROM %s' % t)
+        cur.execute('DELETE FROM sqlite_sequence')
+        cur.close()
+        conn.releaseConnection(raw)
+    conn.cache = CacheSet(cache=conn.doCache)
+    for c in cls:
+        c._connection = conn
+    state = {'n': 0, 'fault': None}
+    orig = conn._executeRetry
+
+    def wrapped(rc, cur, q):
+        i = state['n']
+        state['n'] += 1
+        if state['fault'] is not None and state['fault'] == i:
+            raise dberrors.OperationalError('injected fault')
+        return orig(rc, cur, q)
+    conn._executeRetry = wrapped
+
+    def dump():
+        raw = conn.getConnection()
+        cur = raw.cursor()
+        out = []
+        for t in L.TABLES:
+            cur.execute('SELECT id, a, u, n FROM %s ORDER BY id' % t)
+            out.append([list(r) for r in cur.fetchall()])
+        cur.close()
+        conn.releaseConnection(raw)
+        return out
+
+    def cached():
+        res = []
+        for c in cls:
+            f = conn.cache.caches.get(c.__name__)
+            res.append(sorted(set((list(f.cache.keys()) if f.doCache else []) +
+                                  [k for k, r in list(f.expiredCache.items()) if r() is not None])) if f else [])
+        return res
+    steps, held = [], []
+    try:
+        for op in case['ops']:
+            before_t, before_c = dump(), cached()
+            state['n'], state['fault'] = 0, None
+            try:
+                if op[0] == 'xcreate':
+                    kw = {'u': op[3]}
+                    if op[2] is not None:
+                        kw['id'] = op[2]
+                    state['fault'] = op[4]
+                    o = cls[op[1]](**kw)
+                    out = ['ret', o.id]
+                    held.append(o)
+                else:
+                    o = cls[op[1]].get(op[2])
+                    out = ['ret', o.id]
+                    held.append(o)
+                del o
+            except Exception as e:  # noqa
+                out = ['exc', type(e).__name__]
+            state['fault'] = None
+            gc.collect(0)
+            steps.append({'out': out, 'before': before_t, 'after': dump(), 'cached_before': before_c, 'cached_after': cached()})
+    finally:
+        conn._executeRetry = orig
+        held[:] = []
+        conn.cache.clear()
+    return {'xsteps': steps}
+
+
+def xid_failures(case, obs):
+    for n, (op, st) in enumerate(zip(case['ops'], obs['xsteps'])):
+        k = op[1]
+        base = {'step': n, 'op': op, 'xid': True, 'cache': case['cfg']['cache'], 'fault_index': op[4] if op[0] == 'xcreate' else None}
+        ids_after = [r[0] for r in st['after'][k]]
+        if op[0] == 'xcreate':
+            if st['out'][0] == 'exc':
+                base['raised'] = st['out'][1]
+                if st['after'] != st['before']:
+                    yield dict(base, kind_of_write='xcreate', what='a create with id=%r raised %s but the tables changed: %r -> %r' % (
+                        op[2], st['out'][1], st['before'][k], st['after'][k]))
+                elif st['cached_after'] != st['cached_before']:
+                    yield dict(base, kind_of_write='xcreate', what='a create with id=%r raised %s but an instance was registered: cache ids %r -> %r' % (
+                        op[2], st['out'][1], st['cached_before'][k], st['cached_after'][k]))
+            else:
+                if op[2] is not None and (st['out'][1] != op[2] or op[2] not in ids_after):
+                    yield dict(base, kind_of_write='xcreate', what='a create with id=%r returned an object with id %r; the table has ids %r' % (
+                        op[2], st['out'][1], ids_after))
+                elif st['out'][1] not in ids_after:
+                    yield dict(base, kind_of_write='xcreate', what='a create returned id %r, the table has ids %r' % (st['out'][1], ids_after))
+        elif st['out'][0] == 'ret' and st['out'][1] not in ids_after:
+            yield dict(base, kind_of_write='xget', what='get(%r) handed out an instance although the table has only ids %r' % (op[2], ids_after))
+
+
 def run_impl(cases):
     res = []
     for c in cases:
         try:
+            if c.get('xid'):
+                res.append(run_xid(c))
+                continue
             res.append(run_inherit(c) if c.get('inherit') else {'steps': L.run_history(c)})
         except Exception as e:  # noqa
             res.append({'crash': '%s: %s' % (type(e).__name__, e)})
@@ -235,8 +374,8 @@ def run_impl(cases):
 
 
 def coq_case(case, obs):
-    if case.get('inherit'):
-        # no model here (C15 models inheritable classes); an empty history agrees trivially
+    if case.get('inherit') or case.get('xid'):
+        # no model here (C15 models inheritable classes; the ORM model numbers rows itself); an empty history agrees trivially
         return '{| c_cfg := {| doCache := true; cullFreq := 100; cullFrac := 2 |}; c_steps := [] |}'
     return L.coq_case(case, obs)
 
@@ -269,12 +408,16 @@ def inherit_failures(case, obs):
 
 
 def search_cases(rng, tier):
-    return [L.gen_history(rng, PROFILE, rng.randint(3, 60)) for _ in range(1500)]
+    return [L.gen_history(rng, PROFILE, rng.randint(3, 60)) for _ in range(1500)] + [gen_xid(rng) for _ in range(300)]
 
 
 def failures(case, obs):
     if case.get('inherit'):
         for f in inherit_failures(case, obs):
+            yield f
+        return
+    if case.get('xid'):
+        for f in xid_failures(case, obs):
             yield f
         return
     for info in L.Walk(case, obs):
@@ -332,6 +475,8 @@ def classify(case, obs, f):
     # autocommitted the row, the new instance is already registered
     if f['kind_of_write'] == 'create' and f['raised'] == 'EOperational' and f['fault_index'] == 1:
         return 'create_fails_after_insert'
+    if f['kind_of_write'] == 'xcreate' and f.get('raised') == 'OperationalError' and f['fault_index'] == 1:
+        return 'create_fails_after_insert'
     # the same defect one level up or down an inheritance chain: the injected error hit the re-read (SELECT) that
     # follows the INSERT of one of the levels
     if f['kind_of_write'] == 'inherit-create' and f['raised'] == 'OperationalError' and f['fault_index'] is not None:
@@ -351,7 +496,7 @@ def classify(case, obs, f):
 
 
 def distribution(cases, obs):
-    plain = [(c, o) for c, o in zip(cases, obs) if not c.get('inherit')]
+    plain = [(c, o) for c, o in zip(cases, obs) if not c.get('inherit') and not c.get('xid')]
     d = _c04.distribution([c for c, _ in plain], [o for _, o in plain])
     inh = {'cases': 0, 'creates': 0, 'raised': {}}
     for c, o in zip(cases, obs):
@@ -362,12 +507,17 @@ def distribution(cases, obs):
                 if st['out'][0] == 'exc':
                     inh['raised'][st['out'][1]] = inh['raised'].get(st['out'][1], 0) + 1
     d['inheritance_stream'] = inh
+    d['explicit_id_stream'] = {'cases': sum(1 for c in cases if c.get('xid')),
+                               'creates_raised': sum(1 for c, o in zip(cases, obs) if c.get('xid') and 'xsteps' in o
+                                                     for op, st in zip(c['ops'], o['xsteps']) if op[0] == 'xcreate' and st['out'][0] == 'exc')}
     return d
 
 
 def nontrivial(case, obs):
     if case.get('inherit'):
         return any(st['out'][0] == 'exc' for st in obs['isteps'])
+    if case.get('xid'):
+        return any(st['out'][0] == 'exc' for st in obs['xsteps'])
     for info in L.Walk(case, obs):
         if not info['ok'] and info['core'][0] in WRITES and info['st']['out'][1] != 'EBadHandle':
             return True
